@@ -801,7 +801,7 @@ pub fn string_set(v: Vec<String>) -> (r: HashSet<String>)
     out
 }
 // `E.clone().into_iter().collect::<HashSet<String>>()` (rule R5): the set of strings of E; verified
-pub fn string_set_ref(v: &Vec<String>) -> (r: HashSet<String>)
+pub fn string_set_ref(v: &[String]) -> (r: HashSet<String>)
     ensures forall|s: Seq<char>| #![trigger r@.contains(s)] #![trigger in_strs(v@, s)] r@.contains(s) <==> in_strs(v@, s)
 {
     let mut out = HashSet::<String>::new();
@@ -822,7 +822,7 @@ pub fn string_set_ref(v: &Vec<String>) -> (r: HashSet<String>)
     }
     out
 }
-pub fn any_missing(req: &Vec<String>, names: &HashSet<String>) -> (r: bool)
+pub fn any_missing(req: &[String], names: &HashSet<String>) -> (r: bool)
     ensures r == exists|i: int| 0 <= i < req@.len() && !names@.contains((#[trigger] req@[i])@)
 {
     let mut i: usize = 0;
